@@ -84,9 +84,10 @@ def make_callable(m, is_async, log):
     coro = bool(is_async) and m.get('coro', True) and (is_async != 'plain' or bool(m.get('yields')))
     ns = {'HLOG_': log, 'HEXC_': EXC_TABLE, 'pjrpc': pjrpc, 'UNSET': UNSET, 'HBODY_': body, 'HNAME_': m['name']}
     view = m['ctx'][0] == 'view'
+    static = view and len(m['ctx']) > 2 and m['ctx'][2] == 'static'      # a @staticmethod exposed by the view
     env = env_expr(sig)
     if view and m['ctx'][1]:
-        env = '[["<ctx>", self._ctx]] + ' + env
+        env = ('[["<ctx>", HLAST_[0]]] + ' if static else '[["<ctx>", self._ctx]] + ') + env
     lines = []
     lines.append('    HENV_ = %s' % env)
     lines.append('    HLOG_.append(["call", HNAME_, HENV_])')
@@ -115,8 +116,12 @@ def make_callable(m, is_async, log):
         fname = 'f'
     params = sig_source(sig)
     if view:
-        src = 'class V(HMIXIN_):\n    def __init__(self, ctx=None):\n        self._ctx = ctx\n'
-        src += '    %s %s(self%s):\n' % (kw, fname, (', ' + params) if params else '')
+        ns['HLAST_'] = [None]
+        src = 'class V(HMIXIN_):\n    def __init__(self, ctx=None):\n        self._ctx = ctx\n        HLAST_[0] = ctx\n'
+        if static:
+            src += '    @staticmethod\n    %s %s(%s):\n' % (kw, fname, params)
+        else:
+            src += '    %s %s(self%s):\n' % (kw, fname, (', ' + params) if params else '')
         src += '\n'.join('    ' + l for l in lines) + '\n'
         ns['HMIXIN_'] = _disp.ViewMixin
         exec(src, ns)
@@ -200,7 +205,10 @@ def build(cfg, is_async, log, **extra):
     for key, hs in cfg.get('ehs', []):
         if key not in ehs:   # first entry wins in the model's association list; keys are distinct in generated configs
             ehs[key] = [make_eh(key, i, d, is_async, log) for i, d in enumerate(hs)]
-    disp = cls(middlewares=mws, error_handlers=ehs, max_batch_size=cfg.get('max_batch'), **extra)
+    # the `middlewares` parameter is typed Iterable: a list, a tuple or a one-shot iterator / generator
+    how = cfg.get('mw_as', 'list')
+    mw_arg = {'list': lambda: mws, 'tuple': lambda: tuple(mws), 'iter': lambda: iter(mws), 'gen': lambda: (m for m in mws)}[how]()
+    disp = cls(middlewares=mw_arg, error_handlers=ehs, max_batch_size=cfg.get('max_batch'), **extra)
     shared = {}
     for m in cfg['methods']:
         if m.get('share') and m['share'] in shared:
